@@ -6,7 +6,7 @@ import vf
 sys.path.insert(0, os.path.dirname(os.path.abspath(__file__)))
 
 CFG = 'CONSTANTS\n  Vars <- MCVars\n  Vals <- MCVals\n  Semantics = "%s"\n  Depth = %d\n'
-VARS = ["db", "PK", "OsIndications", "osindications"]
+VARS = ["db", "PK", "OsIndications", "osindications", "db@global", "dbx@global", "Plain0"]
 VALS = ["empty", "d1", "d1b", "d3", "dc", "d1c", "huge"]
 
 
@@ -37,7 +37,7 @@ def random_histories(c, n, length):
             if c.rng.random() < 0.4:
                 ops.append({"op": "read", "v": v, "val": "-", "signed": False})
             else:
-                ops.append({"op": "write", "v": v, "val": c.rng.choice(VALS), "signed": c.rng.random() < 0.4})
+                ops.append({"op": "write", "v": v, "val": c.rng.choice(VALS), "signed": c.rng.random() < 0.4 and "@" not in v})
         out.append(ops)
     return out
 
@@ -64,7 +64,7 @@ def run(c):
     W = lambda v, val, sg: {"op": "write", "v": v, "val": val, "signed": sg}
     R = lambda v: {"op": "read", "v": v, "val": "-", "signed": False}
     for v in VARS + ["KEK", "dbx", "BootOrder"]:
-        for sg in (False, True):
+        for sg in ((False,) if "@" in v else (False, True)):
             hs.append([W(v, "d1", sg), R(v), W(v, "d1b", sg), R(v), W(v, "d1", False), R(v), R(v)])
     # the platform-mode variables are registers like the others: what they return does not depend on the key variables
     for sg in (False, True):
